@@ -45,7 +45,10 @@ def PageSel.matches (s : PageSel) (p : PageInfo) : Bool :=
   (!s.first || p.index = 0) &&
   (s.name = 0 || s.name = p.name) &&
   (match s.nth with
-   | some (a, b) => nthMatch a b p.index
+   | some (a, b) =>
+     -- quirk of the code: `pageIndex{A:0, B:0}` is its own "no index" value (`IsNone`), so
+     -- `:nth(0n+0)` — which matches no page — is treated as if there were no :nth() at all
+     if a = 0 ∧ b = 0 then true else nthMatch a b p.index
    | none => true)
 
 /-! ### declarations and the cascade of `addPageDeclarations` -/
